@@ -187,4 +187,33 @@ def Op.isJump : Op → Bool
   | .jump _ => true
   | _ => false
 
+/-! ## Reconciliation of queued forwards with the monitors of closed channels -/
+
+/-- an HTLC on an inbound channel: (channel, htlc id).  Ids are per-channel counters starting at 0. -/
+structure HtlcRef where
+  chan : Nat
+  id : Nat
+  deriving DecidableEq, Repr, Inhabited
+
+-- mirrors channelmanager.rs reconcile_pending_htlcs_with_monitor (the forward_htlcs_legacy /
+-- pending_intercepted_htlcs_legacy retains) for one outbound HTLC `h` (given by its previous hop) that the
+-- monitor of a closed channel lists
+def reconcileOne (queue : List HtlcRef) (h : HtlcRef) : List HtlcRef :=
+  queue.filter (fun f => !pendingForwardMatches f.chan f.id h.chan h.id)
+
+/-- the manager's to-forward queue (each entry given by its previous hop) after the reload has walked every
+    outbound HTLC `mons` of every monitor of a channel that is closed at load time -/
+def reconcile (queue : List HtlcRef) (mons : List HtlcRef) : List HtlcRef := mons.foldl reconcileOne queue
+
+-- mirrors channelmanager.rs dedup_decode_update_add_htlcs: the map is keyed by the inbound channel; only the
+-- entry of `h.chan` is touched, entries that become empty are removed
+def dedupDecodeOne (m : List (Nat × List Nat)) (h : HtlcRef) : List (Nat × List Nat) :=
+  (m.map (fun e => if e.1 = h.chan then (e.1, e.2.filter (fun i => !dedupMatches i h.id)) else e)).filter
+    (fun e => !e.2.isEmpty)
+
+def dedupDecode (m : List (Nat × List Nat)) (mons : List HtlcRef) : List (Nat × List Nat) := mons.foldl dedupDecodeOne m
+
+/-- (inbound channel, id) pairs waiting in a decode map -/
+def decodeRefs (m : List (Nat × List Nat)) : List HtlcRef := m.flatMap (fun e => e.2.map (fun i => ⟨e.1, i⟩))
+
 end Ldk.Restart
